@@ -87,11 +87,14 @@ func VerifC06Steady() {
 		}
 	}
 	n := 2 + verifChoice("nlines", 3)
+	if behaviour == 2 {
+		n = 6 // enough to overflow iobuf + the line in the writer's hands + connbuf more than once
+	}
 	lines, want := verifLines(n)
 	drop0 := d.numDropNoConnNoSpool.Count()
 	slow0 := d.numDropSlowConn.Count()
 	for i, l := range lines {
-		if i > 0 && verifBool("reconnect-tick") {
+		if i > 0 && behaviour != 2 && verifBool("reconnect-tick") {
 			verifTick(verifReconnTicker())
 			verifSettle()
 		}
